@@ -261,7 +261,7 @@ Section Preservation.
   Proof.
     intros H0. unfold mstep. pose proof (P_clock (S (clock m)) m H0) as H.
     set (m' := set_clock (S (clock m)) m) in *. clearbody m'. clear H0.
-    destruct ev as [p|k|k c|k|k|x|i|].
+    destruct ev as [p|k|k c|k|k|x|i| |x i].
     - apply P_send. apply P_submit. exact H.
     - destruct (take_nth k (wire m')) as [[w rest]|] eqn:E; auto. eapply P_process; eauto.
     - destruct (take_nth k (wire m')) as [[w rest]|] eqn:E; auto. eapply P_reject; eauto.
@@ -281,6 +281,9 @@ Section Preservation.
     - destruct (nth_error (execs m') i) as [x|] eqn:Ex; auto. destruct (is_running (est x)) eqn:Er; auto.
       apply P_cancel; auto. exists x. split; auto. destruct (est x); auto; discriminate.
     - apply pres_wake_stopped. auto.
+    - apply pres_wake_broken. apply P_drop. unfold cancel_if_running.
+      destruct (nth_error (execs m') i) as [y|] eqn:Ex; auto. destruct (is_running (est y)) eqn:Er; auto.
+      apply P_cancel; auto. exists y. split; auto. destruct (est y); auto; discriminate.
   Qed.
 
   Lemma pres_mrun_from : forall evs m, P m -> P (fold_left mstep evs m).
@@ -881,7 +884,7 @@ Proof.
   intros H0. unfold mstep.
   assert (H : W (set_clock (S (clock m)) m)) by (revert H0; apply Wg_frame; auto).
   set (m' := set_clock (S (clock m)) m) in *. clearbody m'. clear H0.
-  destruct ev as [p|k|k c|k|k|x|i|].
+  destruct ev as [p|k|k c|k|k|x|i| |x i].
   - (* Submit *)
     apply Wg_send.
     + destruct H as [H1 H2 H3 H4]. constructor; unfold waits, running; msimpl; auto.
@@ -941,6 +944,10 @@ Proof.
     apply Wg_cancel. apply Wg_Wgx. exact H.
   - (* Stop *)
     apply Wg_wake_stopped. apply Wg_drop. exact H.
+  - (* BreakCancel *)
+    apply Wg_wake_broken. apply Wg_drop. unfold cancel_if_running.
+    destruct (nth_error (execs m') i) as [y|]; auto. destruct (is_running (est y)); auto.
+    apply Wg_cancel. apply Wg_Wgx. exact H.
 Qed.
 
 Theorem W_mrun pp pj fl evs : W (mrun pp pj fl evs).
